@@ -284,3 +284,49 @@ where
         self.kktsolver.update_A(A);
     }
 }
+
+// ---------------------------------------------------------------------------
+// verification hooks (add-only, feature gated): run the real `solve` assembly
+// around an externally supplied linear solver, and view / overwrite the private
+// work vectors.
+#[cfg(feature = "verif-hooks")]
+pub mod verif_hooks_kktsystem {
+    use super::*;
+
+    /// A `DefaultKKTSystem` around a caller supplied `KKTSolver` (the harness passes a
+    /// stub that returns prescribed linear-solve results), with the result `(x2,z2)` of
+    /// the constant-rhs solve prescribed.
+    pub fn with_kktsolver<T: FloatT>(
+        kktsolver: Box<dyn KKTSolver<T> + Send + Sync>,
+        x2: Vec<T>,
+        z2: Vec<T>,
+    ) -> DefaultKKTSystem<T> {
+        let (n, m) = (x2.len(), z2.len());
+        DefaultKKTSystem {
+            kktsolver,
+            x1: vec![T::zero(); n],
+            z1: vec![T::zero(); m],
+            x2,
+            z2,
+            workx: vec![T::zero(); n],
+            workz: vec![T::zero(); m],
+            work_conic: vec![T::zero(); m],
+        }
+    }
+
+    /// copies of `(x1, z1, x2, z2)`
+    pub fn solve_vectors<T: FloatT>(k: &DefaultKKTSystem<T>) -> (Vec<T>, Vec<T>, Vec<T>, Vec<T>) {
+        (k.x1.clone(), k.z1.clone(), k.x2.clone(), k.z2.clone())
+    }
+
+    /// overwrite every private work vector with `v`
+    pub fn fill_work_vectors<T: FloatT>(k: &mut DefaultKKTSystem<T>, v: T) {
+        k.x1.fill(v);
+        k.z1.fill(v);
+        k.x2.fill(v);
+        k.z2.fill(v);
+        k.workx.fill(v);
+        k.workz.fill(v);
+        k.work_conic.fill(v);
+    }
+}
